@@ -78,7 +78,7 @@ func c20Enumerate(t *testing.T, w *sim.Worker) {
 			complete = false
 		}
 		for off := 0; off < census.BodyBytes; off += stride {
-			faults = append(faults, vsFault{Kind: "cut", Pos: off})
+			faults = append(faults, vsFault{Kind: "cut", Pos: off}, vsFault{Kind: "cut-eof", Pos: off})
 		}
 		scenarios++
 		for i, f := range faults {
